@@ -380,7 +380,7 @@ theorem isMatching_ok (ctx : Ctx) (req : Request) (hu : req.uri.head? = some 47)
         simp only []
         by_cases hdir : md.isDir = true
         · simp only [hdir, if_true]
-          cases canOpen ctx.tree (ctx.cwd ++ c.path ++ di)
+          cases isRegularFile ctx.tree (ctx.cwd ++ c.path ++ di)
           · exact ⟨_, rfl⟩
           · simp only []
             repeat' split
